@@ -3,7 +3,7 @@
 P=$1; shift
 cd /repo
 if ! git apply --check "$P" 2>/dev/null; then
-  if ! git apply --3way "$P" 2>/dev/null; then echo "PATCH-DOES-NOT-APPLY $P"; git checkout -- . ; git reset -q; exit 3; fi
+  if ! git apply --3way "$P" 2>/dev/null; then echo "PATCH-DOES-NOT-APPLY $P"; git reset -q; git checkout -- . ; exit 3; fi
   git reset -q
 else
   git apply "$P"
